@@ -26,9 +26,16 @@ unsafe impl Send for VariableInfo {}
 unsafe impl Sync for VariableInfo {}
 
 
+impl VariableInfo {
+    /* The session key of a name: its lower-cased words separated by a blank, so that 'ab' and 'a b' are different names */
+    pub fn build_name(tokens: &[Rc<TokenType>]) -> String {
+        tokens.iter().map(|item| item.to_string().to_lowercase()).collect::<Vec<String>>().join(" ")
+    }
+}
+
 impl ToString for VariableInfo {
     fn to_string(&self) -> String {
-        self.tokens.iter().map(|item| item.to_string().to_lowercase()).collect::<String>()
+        VariableInfo::build_name(&self.tokens)
     }
 }
 
